@@ -217,14 +217,24 @@ def run_case(ctx, kind, rng, idx):
     desc = dict(info, n=n, threshold=thr, renumber=renumber,
                 C=C if n <= 9 else 'elided')
     ctx.describe(desc)
+    # the threshold as a caller may hold it: Python / numpy integer, an
+    # integral float, or a genuinely fractional value ("at or above 2.5")
+    tk = int(rng.integers(0, 6))
+    thr_arg = [thr, np.int64(thr), float(thr), np.int32(thr),
+               thr - 0.5, np.float64(thr) - 0.25][tk]
+    if tk >= 4 and info.get('huge-near-tie'):
+        thr_arg = thr
+    thr = thr_arg if tk >= 4 and not info.get('huge-near-tie') else thr
     comps, w = scc_oracle(C, thr)
     keeps = {}
     for cname in mc.CONTAINERS:
         Cin = mc.to_container(C, cname, rng)
         fz = Frozen(Cin)
         try:
-            mapping, Tc = tm.trim_disconnected(Cin, threshold=thr,
-                                               renumber_states=renumber)
+            mapping, Tc = tm.trim_disconnected(
+                Cin, threshold=thr_arg,
+                renumber_states=[renumber, np.bool_(renumber),
+                                 int(renumber)][idx % 3])
         except Exception as e:  # noqa
             ctx.violation('trim.raised[%s]' % (
                 'dense' if cname == 'ndarray' else 'sparse'),
